@@ -17,13 +17,24 @@ Definition shape_of_sx (s : sx) : option shape :=
       Some (mkShape f (fun r => fst (nth r rs (false, NoP2P))) (fun r => snd (nth r rs (false, NoP2P))))
   | _ => None end.
 
-(* msg: (ssid proto from to round data bcast bv fp valid) ; to = -1 for "everyone" *)
+(* the panic flag of a message: 0 = the round code does not panic on it, 1 = it panics while decoding / verifying /
+   storing it, 2 = it accepts it and panics in Finalize of that round *)
+Definition panic_of_nat (k : nat) : option panic_at :=
+  match k with O => Some NoPanic | S O => Some PanicVerify | S (S O) => Some PanicFinalize | _ => None end.
+
+(* msg: (ssid proto from to round data bcast bv fp valid [panic]) ; to = -1 for "everyone";
+   the 11th element is optional (absent = the round code does not panic on the message) *)
 Definition msg_of_sx (s : sx) : option msg :=
   match s with
-  | Li [ssid; proto; from; At to; rnd; data; bc; bv; fp; valid] =>
+  | Li (ssid :: proto :: from :: At to :: rnd :: data :: bc :: bv :: fp :: valid :: rest) =>
       do ssid <- as_N ssid; do proto <- as_N proto; do from <- as_nat from; do rnd <- as_nat rnd;
       do data <- as_bool data; do bc <- as_bool bc; do bv <- as_N bv; do fp <- as_N fp; do valid <- as_bool valid;
-      Some (mkMsg ssid proto from (if (to <? 0)%Z then None else Some (Z.to_nat to)) rnd data bc bv fp valid)
+      do pn <- match rest with
+               | [] => Some NoPanic
+               | [k] => do k <- as_nat k; panic_of_nat k
+               | _ => None
+               end;
+      Some (mkMsg ssid proto from (if (to <? 0)%Z then None else Some (Z.to_nat to)) rnd data bc bv fp valid pn)
   | _ => None end.
 
 Inductive event := EvAccept (m : msg) | EvStop | EvDrain (k : nat) | EvCanAccept (m : msg).
@@ -43,7 +54,8 @@ Definition sx_out (o : outmsg) : sx :=
   Li [At (match o_to o with None => (-1)%Z | Some j => Z.of_nat j end); sx_nat (o_round o); sx_bool (o_bcast o); sx_N (o_bv o)].
 
 Definition errkind_tag (e : errkind) : Z :=
-  match e with EAbortNotice => 1 | EVerify => 2 | EBroadcastHash => 3 | EFinalize => 4 | EUser => 5 | EProtoAbort => 6 end%Z.
+  match e with EAbortNotice => 1 | EVerify => 2 | EBroadcastHash => 3 | EFinalize => 4 | EUser => 5 | EProtoAbort => 6
+             | EPanic => 7 end%Z.
 
 Definition rt_tag (r : runtime) : Z :=
   match r with Running => 0 | Panicked w => 10 + Z.of_nat w | BlockedOnSend => 2 end%Z.
@@ -62,10 +74,11 @@ Section Run.
   Variable vh : nat -> list N -> N.
   Variable ofp : nat -> N.
   Variable fixed_stop : bool.
+  Variable recovers : bool.     (* Accept defers recoverToAbort (the code as it is) / does not (before the fix) *)
 
   Definition apply_event (s : hstate) (e : event) : hstate * Z :=
     match e with
-    | EvAccept m => (accept vh ofp s m, 0%Z)
+    | EvAccept m => ((if recovers then accept vh ofp s m else accept_v0 vh ofp s m), 0%Z)
     | EvStop => (stop fixed_stop s, 0%Z)
     | EvDrain k => (drain k s, 0%Z)
     | EvCanAccept m => (s, if can_accept s m then 1%Z else 0%Z)
@@ -80,8 +93,10 @@ Section Run.
 End Run.
 
 (* "hnd.run": (self n ssid proto shape ((round digest)...) ((round ownfp)...) fixed_stop (events...))
-     -> (obs_after_init obs_1 ... obs_k) *)
-Definition op_hnd_run (arg : sx) : option sx :=
+     -> (obs_after_init obs_1 ... obs_k)
+   "hnd.run.v0": the same with Accept as it was before it recovered panics (regression: a message the round code
+   panics on leaves runtime tag 13 instead of a clean abort) *)
+Definition op_hnd_run_gen (recovers : bool) (arg : sx) : option sx :=
   match arg with
   | Li [self; n; ssid; proto; shp; Li vht; Li fpt; fx; Li evs] =>
       do self <- as_nat self; do n <- as_nat n; do ssid <- as_N ssid; do proto <- as_N proto;
@@ -93,7 +108,11 @@ Definition op_hnd_run (arg : sx) : option sx :=
       let vh := fun r (_ : list N) => table_fun vht r in
       let ofp := table_fun fpt in
       let s0 := new_handler vh ofp self n ssid proto shp in
-      Some (Li (observe 0 s0 0%Z :: run_events vh ofp fx s0 evs))
+      Some (Li (observe 0 s0 0%Z :: run_events vh ofp fx recovers s0 evs))
   | _ => None end.
 
-Definition handler_ops : list (bytes * (sx -> option sx)) := [ (str "hnd.run"%string, op_hnd_run) ].
+Definition op_hnd_run : sx -> option sx := op_hnd_run_gen true.
+Definition op_hnd_run_v0 : sx -> option sx := op_hnd_run_gen false.
+
+Definition handler_ops : list (bytes * (sx -> option sx)) :=
+  [ (str "hnd.run"%string, op_hnd_run); (str "hnd.run.v0"%string, op_hnd_run_v0) ].
